@@ -95,6 +95,27 @@ def directed(rng, quick):
                                 ops = ['ar0', 'ar1', 'w0:' + hx(rbytes(rng, 2)), 'w1:' + hx(rbytes(rng, 2)),
                                        order, rng.choice('pq'), 'k%d' % victim, order, rng.choice('pq')]
                                 yield payload('remove-ready:' + how, ds, ops)
+    # --- two descriptors ready in the same batch; the first callback removes the other one and, still inside the
+    #     callback, registers a NEW idle descriptor (read and/or write side): the stale ready event of the removed
+    #     descriptor must not reach the newcomer (EPollData recycled too early / tombstone re-used)
+    for k0 in KINDS:
+        for k1 in KINDS:
+            for kz in KINDS:
+                for cz in (True, False):
+                    for c01 in (True, False):
+                        for newrole in ('r', 'w', 'rw'):
+                            if 'w' in newrole and kz != 's':
+                                continue
+                            for extra in ((), ('readd',)):
+                                add = ['a2%s' % r for r in newrole]
+                                rs0 = ['x1r'] + add + (['a1r'] if extra else [])
+                                rs1 = ['x0r'] + add + (['a0r'] if extra else [])
+                                ds = [desc(k0, c01, False, 1, rs=rs0), desc(k1, not c01 if rng.random() < 0.3 else c01, False, 1, rs=rs1),
+                                      desc(kz, cz, False, 9)]
+                                for order in ('p', 'q'):
+                                    ops = ['ar0', 'ar1', 'w0:' + hx(rbytes(rng, 2)), 'w1:' + hx(rbytes(rng, 2)), order,
+                                           rng.choice('pq'), 'w2:' + hx(rbytes(rng, 1)), rng.choice('pq'), rng.choice('pq')]
+                                    yield payload('remove-ready+add-new:' + newrole + ('+readd' if extra else ''), ds, ops)
     # --- write readiness on sockets; write callback removing itself / the read side / another descriptor
     for conn in (True, False):
         for ws in ([], ['x0w'], ['x0r'], ['x0w', 'a0w'], ['x1r'], ['x0r', 'a0r']):
